@@ -3,7 +3,7 @@
    case inputs  = (zSEQ xTYPE sEMPTY ROUTE READ ((sSTAGE VERDICT) ...) HANDLER W W W sCTX sSPAWN sGOON sFIXED)
      ROUTE   = sknown | sunknown | snone
      READ    = (shdr sBOOL) | sbodyok | (sbodyerr sBOOL)
-     VERDICT = snil | (sstat zCODE xMSG CAUSE) | (spanic CAUSE)
+     VERDICT = snil | (sstat zCODE xMSG CAUSE) | (spanic CAUSE) | (schain VERDICT ...)  plugins of the stage in order
      CAUSE   = (stext xBYTES) | slib
      HANDLER = (sret) | (sret (zCODE xMSG CAUSE)) | (spanic CAUSE)
      W       = sok | sclosed | srefused          (OK reply, error frame, fallback frame)
@@ -46,10 +46,27 @@ Definition stage_name (s : stage) : string :=
   | SPostReadPushHeader => "prph" | SPreReadPushBody => "prpb" | SPostReadPushBody => "porpb"
   end.
 
+(* a stage's entry is one verdict or a chain (schain V V ...) of its plugins in order *)
+Fixpoint dec_verdicts (l : list val) : option (list verdict) :=
+  match l with
+  | [] => Some []
+  | v :: r => match dec_verdict v, dec_verdicts r with
+              | Some x, Some xs => Some (x :: xs)
+              | _, _ => None
+              end
+  end.
+
+Definition dec_stage_entry (v : val) : option verdict :=
+  match v with
+  | VL (t :: vs) => if sym_eqb t "chain" then option_map stage_verdict (dec_verdicts vs)
+                    else dec_verdict v
+  | _ => dec_verdict v
+  end.
+
 Fixpoint find_verdict (l : list val) (s : stage) : option verdict :=
   match l with
   | [] => Some VNil
-  | VL [n; v] :: r => if sym_eqb n (stage_name s) then dec_verdict v else find_verdict r s
+  | VL [n; v] :: r => if sym_eqb n (stage_name s) then dec_stage_entry v else find_verdict r s
   | _ => None
   end.
 
